@@ -1090,12 +1090,22 @@ def c09b(F, R):
             for n in walk(f["hir"]["value"], pats=False):
                 if n.get("k") in ("MethodCall", "Call") and callee_of(n) == q:
                     recv, args = call_recv_args(n)
+                    assigns = {}
+                    for as_ in walk(f["hir"]["value"], pats=False):
+                        if as_.get("k") == "Assign" and peel(as_["l"]).get("k") == "Path" and peel(as_["l"]).get("res_kind") == "Local":
+                            assigns.setdefault(peel(as_["l"])["res"], []).append(as_["r"])
+
+                    def from_get_pos(x, depth=0):
+                        """a get_pos() value: the call itself, or a local initialised with - and only ever assigned - such values"""
+                        x = peel(x)
+                        if x.get("k") == "MethodCall" and callee_of(x) == getpos:
+                            return True
+                        if x.get("k") == "Path" and x.get("res_kind") == "Local" and x.get("res") in lets and depth < 4:
+                            return from_get_pos(lets[x["res"]], depth + 1) and all(from_get_pos(r_, depth + 1) for r_ in assigns.get(x["res"], []))
+                        return False
                     for a in args[-2:]:
                         a = peel(a)
-                        src = a
-                        if a.get("k") == "Path" and a.get("res") in lets:
-                            src = peel(lets[a["res"]])
-                        if src.get("k") == "MethodCall" and callee_of(src) == getpos:
+                        if from_get_pos(a):
                             R.ok(f"invalid_string-arg|{n_rng}|{ekey(a)}", trivial=True)
                         else:
                             R.bad(f"invalid_string-arg|{p}", f"invalid_string is given a position `{ekey(a)}` that is not a get_pos() value", loc(n))
@@ -1147,50 +1157,84 @@ def c09d(F, R):
 
 @rule("C09", "C09.e.initial-cursor-state", floor=2)
 def c09e(F, R):
-    """the cursor state Lexer::new starts in equals the state consume_char leaves at the first character of any later line (otherwise the first line, or a file with a leading blank line, is positioned differently)"""
+    """the lexer's (row, col) is the line and column of the character under the cursor - for every character, the newline included: a newline is the last character of its own line, and the row changes when the cursor leaves it. Read off `consume_char` by evaluating it for the four combinations (character left, character entered) in {newline, other}: the step may depend only on the character that is left. `get_pos` hands (row, col) on unchanged and `Lexer::new` starts at (0, 0). A cursor that changes row when it *arrives* at a newline gives the newline token - and every `Expected .., found NEWLINE` error - the line and column of the following line with the raw offset of this one"""
+    from .lexcursor import Cursor, St, Unextractable
+    from .facts import linform, lin_eq, LinUnx
     lm = inherent_methods(F, LEXER)
     cc = F.fn(lm["consume_char"])
-    C0 = K = RINC = None
-    for i in walk(cc["hir"]["value"], pats=False):
-        if i.get("k") == "If" and any(x.get("k") == "Lit" and x["lit"].get("v") == "\n" for x in walk(i["cond"], pats=False)):
-            for a in walk(i["then"], pats=False):
-                if a.get("k") == "Assign" and ekey(a["l"]).endswith(".col"):
-                    C0 = lit_value(a["r"])
-                if a.get("k") == "AssignOp" and a["op"] == "AddAssign" and ekey(a["l"]).endswith(".row"):
-                    RINC = lit_value(a["r"])
-            for a in walk(i.get("else") or {}, pats=False):
-                if a.get("k") == "AssignOp" and a["op"] == "AddAssign" and ekey(a["l"]).endswith(".col"):
-                    K = lit_value(a["r"])
-    if None in (C0, K, RINC):
-        R.bad("consume_char|shape", f"UNEXTRACTABLE: consume_char's newline / non-newline updates not found (col reset {C0}, col step {K}, row step {RINC})", cc["sp"])
+    table = {}
+    try:
+        for left in ("L", "N"):
+            for entered in ("L", "N"):
+                cur = Cursor(F)
+                cur.fn = lm["consume_char"]
+                cur.present = {0, 1}
+                outs = cur.run(cc["hir"]["value"], St(know={0: left, 1: entered}))
+                effs = [s_.eff for kind, s_, v in outs if kind in ("normal", "return")]
+                if len(effs) != 1:
+                    effs = [{k_: (v_ if all(e2.get(k_) == v_ for e2 in effs) else "?") for k_, v_ in effs[0].items()}] if effs else [{}]
+                table[(left, entered)] = effs[0]
+    except Unextractable as ex:
+        R.bad("consume_char|shape", f"UNEXTRACTABLE: consume_char uses a construct the cursor analysis does not model ({ex})", cc["sp"])
         return
-    R.ok("consume_char", detail=f"newline: row += {RINC}, col = {C0}; other: col += {K}")
+    want = {"L": {"row": ("+", 1), "col": ("=", 0)}, "N": {"row": None, "col": ("+", 1)}}
+    bad = []
+    for (left, entered), eff in sorted(table.items()):
+        got = {"row": eff.get("row"), "col": eff.get("col")}
+        if got != want[left]:
+            bad.append(f"leaving a {'newline' if left == 'L' else 'non-newline'} and entering a {'newline' if entered == 'L' else 'non-newline'}: row {got['row'] or 'unchanged'}, col {got['col'] or 'unchanged'}")
+        if eff.get("pos") != ("+", 1):
+            bad.append(f"pos {eff.get('pos')} instead of += 1")
+    if bad:
+        R.bad("consume_char", "consume_char does not keep (row, col) on the character under the cursor (a newline belongs to the line it ends; the row changes when the cursor leaves it): " + "; ".join(bad[:3]) + ". The newline token and every error that names it (`Expected REGISTER, found NEWLINE` after `add a0, a1`) carry the line and column of the *next* line together with the raw offset of this one", cc["sp"])
+    else:
+        R.ok("consume_char", detail="leaving a newline: row += 1, col = 0; leaving anything else: col += 1; independent of the character entered", where=cc["sp"])
+    # get_pos: Position::new(row, col, pos)
+    gp = F.fn(lm["get_pos"])
+    news = [c for c in walk(gp["hir"]["value"], pats=False) if c.get("k") == "Call" and (callee_of(c) or "").endswith("Position::new") and len(c["args"]) == 3]
+    if len(news) != 1:
+        R.bad("get_pos|shape", "UNEXTRACTABLE: get_pos does not build one Position::new(line, column, raw)", gp["sp"])
+    else:
+        lets = local_inits(gp["hir"]["value"])
+        okp, why = True, []
+        for arg, fld in zip(news[0]["args"], ("row", "col", "pos")):
+            try:
+                lf = linform(arg, lets)
+                if not lin_eq(lf, {fld: 1}):
+                    okp = False
+                    why.append(f"{fld} -> {lf}")
+            except LinUnx as ex:
+                okp = False
+                why.append(f"{fld}: {ex}")
+        if okp:
+            R.ok("get_pos", detail="get_pos = Position::new(row, col, pos)", where=gp["sp"])
+        else:
+            R.bad("get_pos", f"get_pos does not hand the cursor's (row, col, pos) on unchanged ({'; '.join(why)}): a conditional adjustment makes two different characters share one position", gp["sp"])
+    # Lexer::new: (0, 0, 0)
     nf = F.fn(lm["new"])
     st = [n for n in walk(nf["hir"]["value"], pats=False) if n.get("k") == "Struct" and (n.get("res") or "").endswith("lexer::Lexer")]
-    flds = {x["name"]: peel(x["e"]) for x in st[0]["fields"]}
-    # resolve `let (row, col) = if first == '\n' { (r1, c1) } else { (r0, c0) }`
-    state = {}
+    if not st:
+        R.bad("initial-state|shape", "UNEXTRACTABLE: Lexer::new builds no Lexer literal", nf["sp"])
+        return
+    flds = {x["name"]: x["e"] for x in st[0]["fields"]}
+    lets = local_inits(nf["hir"]["value"])
+    # a tuple binding `let (row, col) = (0, 0);`
     for s_ in walk(nf["hir"]["value"], pats=False):
-        if s_.get("k") == "Let" and s_["pat"].get("k") == "PTuple" and s_.get("init"):
-            names = [p_.get("name") for p_ in s_["pat"]["pats"]]
-            init = peel(s_["init"])
-            if init.get("k") == "If" and any(x.get("k") == "Lit" and x["lit"].get("v") == "\n" for x in walk(init["cond"], pats=False)):
-                tv, ev = peel(init["then"]), peel(init.get("else") or {})
-                if tv.get("k") == "Tup" and ev.get("k") == "Tup":
-                    for nm, a, b in zip(names, tv["elems"], ev["elems"]):
-                        state[nm] = (lit_value(a), lit_value(b))
-    def val(fname):
-        e = flds.get(fname, {})
-        if e.get("k") == "Path" and e.get("res") in state:
-            return state[e["res"]]
-        v = lit_value(e)
-        return (v, v)
-    row, col = val("row"), val("col")
-    want_row, want_col = (RINC, 0), (C0, C0 + K)
-    if row == want_row and col == want_col:
-        R.ok("initial-state", detail=f"Lexer::new: at a leading newline (row, col) = ({row[0]}, {col[0]}), otherwise ({row[1]}, {col[1]}) = the post-newline state")
+        if s_.get("k") == "Let" and s_["pat"].get("k") == "PTuple" and s_.get("init") is not None and peel(s_["init"]).get("k") == "Tup":
+            for p_, e_ in zip(s_["pat"]["pats"], peel(s_["init"])["elems"]):
+                if p_.get("k") == "PBinding":
+                    lets[p_["name"]] = e_
+    vals = {}
+    for fld in ("row", "col", "pos"):
+        try:
+            lf = linform(flds.get(fld, {}), lets)
+            vals[fld] = lf.get("", None) if all(v == 0 for k_, v in lf.items() if k_) else "?"
+        except LinUnx:
+            vals[fld] = "?"
+    if vals == {"row": 0, "col": 0, "pos": 0}:
+        R.ok("initial-state", detail="Lexer::new starts at (row, col, pos) = (0, 0, 0): the first character of the text", where=nf["sp"])
     else:
-        R.bad("initial-state", f"Lexer::new starts with (row, col) = ({row[0]}, {col[0]}) if the text begins with a newline and ({row[1]}, {col[1]}) otherwise; consume_char reaches the first character of every later line with ({want_row[1]}, {want_col[1]}) and a newline with (+{want_row[0]}, {want_col[0]}): first-line columns / line numbers after a leading blank line are shifted", nf["sp"])
+        R.bad("initial-state", f"Lexer::new starts at (row, col, pos) = ({vals['row']}, {vals['col']}, {vals['pos']}) - possibly depending on the first character - instead of (0, 0, 0): positions on the first line, or after a leading blank line, are shifted against all later lines", nf["sp"])
 
 
 @rule("C09", "C09.c.index-bases", floor=4)
@@ -1631,7 +1675,7 @@ def c06x(F, R):
 
 @rule("C09", "C09.h.positions-are-not-taken-on-a-line-break", floor=15)
 def c09h(F, R):
-    """the cursor analysis again: wherever the lexer takes a position for a token or an error (`get_pos()`, `get_range()`), the character under the cursor is not known to be a line break - the lexer counts a newline character as column 0 of the *next* row, so a range that ends there lies on two lines (`Invalid string .. at 2 12:1`). The newline token itself is the one exception"""
+    """the cursor analysis again: wherever the lexer takes a position for a token or an error (`get_pos()`, `get_range()`), the cursor stands on a character of the token: not on a line break (a range that ends there runs over the end of its line - `Invalid string .. at 2 12:1`; the newline token itself is the one exception) and not past the last character of the input (a symbol, directive or unclosed literal that ends the file would get an end offset outside the file)"""
     from .lexcursor import Cursor, Unextractable
     summ = _unicode_summary(F)
     if isinstance(summ, str):
@@ -1649,9 +1693,11 @@ def c09h(F, R):
         if newline_arm:
             R.ok(key, detail="the newline token's own position", where=where)
         elif k0 == "L":
-            R.bad(key, "a position is taken while the cursor is on a line break: the lexer attributes that character to column 0 of the next row, so the range (or error position) built from it ends on the following line", where)
-        elif k0 != "N":
-            R.bad(key, "a position is taken on a character that has not been tested: if it is the line break (`'a` at the end of a line), the lexer attributes it to column 0 of the next row and the range built from it ends on the following line", where)
+            R.bad(key, "a position is taken while the cursor is on a line break: the range (or error position) built from it includes the line break, which is no part of the token or literal the message is about", where)
+        elif k0 is None or "L" in k0:
+            R.bad(key, "a position is taken on a character that has not been tested: if it is the line break (`'a` at the end of a line), the range built from it runs over the end of the line", where)
+        elif "E" in k0:
+            R.bad(key, "a position is taken where the cursor may already be past the last character of the input (a token or an unclosed literal that the end of the file cuts short): its raw offset is the length of the text - one past the character the range should end on, and outside the file", where)
         else:
             R.ok(key, detail="position taken on a character established not to be a line break", where=where)
 
